@@ -38,6 +38,9 @@ CHECKS = {
  'C15': dict(tech=A + ' over an arbitrary 3-entry catalogue; shipped catalogue constants compared directly', cat='model_checking',
              text='the real NIST and radionuclide lookup units executed by CBMC over a small catalogue with symbolic contents: by-index / by-name / name-list agree, deep independent copies, error protocol, no leak; the shipped catalogues (180 compounds, 10 nuclides) are checked for well-formedness, unique names and index-macro/name agreement by direct evaluation of the constants',
              note='3 entries, names <= 3 bytes, <= 2 elements (functions have no size-dependent branch); memcpy/strdup/lfind are loop models (CBMC built-in memcpy is imprecise on interior sub-arrays); element-symbol bijection and crystal catalogue are covered under C07/C14'),
+ 'C14': dict(tech=A + '; one inductive step per operation from an arbitrary valid collection state', cat='model_checking',
+             text='Crystal_ArrayInit/AddCrystal (user and built-in collection)/GetCrystal/GetCrystalsList/MakeCopy/Free/ArrayFree of the real crystal_diffraction.c executed by CBMC from every array shape with capacity <= 2 and symbolic contents: invariant (sorted, counts, capacity) preserved on the object the caller holds, abstract content = old + new on success and unchanged on rejection, growth when full, built-in capacity enforced, independent copies, everything released by ArrayFree (memory-leak check)',
+             note='capacity <= 2 (12 after growth), names <= 2 bytes, <= 1 atom; typed bsearch/qsort/memcpy models with the real comparators; libm stand-ins; Crystal_ReadFile (file I/O) not encoded'),
 }
 NA = {
  'C19': 'no symbolic engine for Java/JVM bytecode is installed (no JBMC/SPF); a hand-written Java->SMT translator for 5900 lines using ByteBuffer I/O, exceptions and collections is out of reach; see DESIGN.md C19',
